@@ -39,6 +39,42 @@ static bool run_case(const std::vector<uint64_t>& ts, int n, int op, int pos) {
     for (auto t : pool) free(t);
     return ok;
 }
+// an interrupt that is reported by thread_yield() must not also end the thread's next, unrelated sleep
+static volatile int y_phase = 0; static int y_ret, y_r1, y_e1; static uint64_t y_d1;
+static void* y_worker(void*) {
+    y_phase = 1;
+    y_ret = photon::thread_yield();            // the main thread interrupts us while we are READY
+    uint64_t t0 = photon::__update_now();
+    errno = 0; y_r1 = photon::thread_usleep(20000); y_e1 = errno; y_d1 = photon::__update_now() - t0;
+    y_phase = 2; return 0;
+}
+// two interrupts before the sleeper runs again: the one that ended the sleep is the one reported
+static volatile int d_phase = 0; static int d_r, d_e;
+static void* d_worker(void*) { d_phase = 1; errno = 0; d_r = photon::thread_usleep(-1UL); d_e = errno; d_phase = 2; return 0; }
+static bool case_double_interrupt() {
+    d_phase = 0;
+    photon::vcpu_init();
+    auto th = photon::thread_create(&d_worker, nullptr);
+    while (d_phase != 1) photon::thread_yield();
+    photon::thread_yield();                      // the worker is now asleep
+    photon::thread_interrupt(th, ECANCELED);     // ends the sleep
+    photon::thread_interrupt(th, EBUSY);         // the sleeper is READY with a parked reason: ends nothing
+    while (d_phase != 2) photon::thread_usleep(1000);
+    photon::vcpu_fini();
+    if (d_r != -1 || d_e != ECANCELED) { why = "the sleeper reported errno " + std::to_string(d_e) + " instead of the reason of the interrupt that cut it short (ECANCELED)"; return false; }
+    return true;
+}
+static bool case_yield_then_sleep() {
+    y_phase = 0;
+    photon::vcpu_init();
+    auto th = photon::thread_create(&y_worker, nullptr);
+    while (y_phase != 1) photon::thread_yield();
+    photon::thread_interrupt(th, ECANCELED);
+    while (y_phase != 2) photon::thread_usleep(1000);
+    photon::vcpu_fini();
+    if (y_ret == ECANCELED && y_r1 != 0) { why = "an interrupt already reported by thread_yield() also ended the next thread_usleep() (-1 after the full duration)"; return false; }
+    return true;
+}
 static std::vector<uint64_t> jarr(const std::string& j, const char* key) {
     std::vector<uint64_t> r; auto p = j.find(std::string("\"") + key + "\""); if (p == std::string::npos) return r;
     p = j.find('[', p); auto e = j.find(']', p); std::stringstream ls(j.substr(p + 1, e - p - 1)); std::string t;
@@ -49,6 +85,8 @@ static long jnum(const std::string& j, const char* key) { auto p = j.find(std::s
 int main(int argc, char** argv) {
     if (argc >= 3 && !strcmp(argv[1], "--replay")) {
         std::ifstream f(argv[2]); std::stringstream ss; ss << f.rdbuf(); std::string j = ss.str();
+        if (j.find("double_interrupt") != std::string::npos) { bool ok = case_double_interrupt(); printf("%s %s\n", ok ? "NOT-REPRODUCED" : "REPRODUCED", why.c_str()); return 0; }
+        if (j.find("yield") != std::string::npos) { bool ok = case_yield_then_sleep(); printf("%s %s\n", ok ? "NOT-REPRODUCED" : "REPRODUCED", why.c_str()); return 0; }
         auto ts = jarr(j, "in_ts"); int n = (int)jnum(j, "in_n"); int op = j.find("push_n") != std::string::npos ? 0 : (j.find("pop_front_n") != std::string::npos ? 1 : 2);
         // the bounded harness starts from an arbitrary heap; replay it by inserting the same deadlines
         while ((int)ts.size() <= n) ts.push_back(0);
@@ -56,6 +94,9 @@ int main(int argc, char** argv) {
         printf("%s %s\n", ok ? "NOT-REPRODUCED" : "REPRODUCED", why.c_str()); return 0;
     }
     uint64_t N = argc > 1 ? strtoull(argv[1], 0, 10) : 100000, cases = 0;
+    set_log_output_level(ALOG_FATAL);
+    ++cases; if (!case_double_interrupt()) { printf("CEX interrupt {\"kind\": \"double_interrupt\", \"why\": \"%s\"}\n", why.c_str()); return 3; }
+    ++cases; if (!case_yield_then_sleep()) { printf("CEX yield {\"kind\": \"yield_then_sleep\", \"why\": \"%s\"}\n", why.c_str()); return 3; }
     const char* sd = getenv("VERIF_SEED"); rs_ = 0x9E3779B97F4A7C15ull ^ (sd ? strtoull(sd, 0, 10) * 0x100000001B3ull : 1);
     for (uint64_t k = 0; k < N; ++k) {
         int n = rnd() % 40; std::vector<uint64_t> ts;
